@@ -796,54 +796,61 @@ func (c *Compiler) isAssignableIndirect(fieldCode *StructFieldCode, isPtr bool) 
 	return true
 }
 
-func (c *Compiler) getFieldMap(fields []*StructFieldCode) map[string][]*StructFieldCode {
-	fieldMap := map[string][]*StructFieldCode{}
-	for _, field := range fields {
-		if field.isAnonymous {
-			for k, v := range c.getAnonymousFieldMap(field) {
-				fieldMap[k] = append(fieldMap[k], v...)
-			}
-			continue
-		}
-		fieldMap[field.key] = append(fieldMap[field.key], field)
-	}
+// fieldAtDepth is a field reachable by a JSON name and the number of embedded structs it is reached through.
+type fieldAtDepth struct {
+	field *StructFieldCode
+	depth int
+}
+
+func (c *Compiler) getFieldMap(fields []*StructFieldCode) map[string][]fieldAtDepth {
+	fieldMap := map[string][]fieldAtDepth{}
+	c.collectFieldMap(fields, 0, fieldMap)
 	return fieldMap
 }
 
-func (c *Compiler) getAnonymousFieldMap(field *StructFieldCode) map[string][]*StructFieldCode {
-	fieldMap := map[string][]*StructFieldCode{}
-	structCode := field.getAnonymousStruct()
-	if structCode == nil || structCode.isRecursive {
-		fieldMap[field.key] = append(fieldMap[field.key], field)
-		return fieldMap
-	}
-	for k, v := range c.getFieldMapFromAnonymousParent(structCode.fields) {
-		fieldMap[k] = append(fieldMap[k], v...)
-	}
-	return fieldMap
-}
-
-func (c *Compiler) getFieldMapFromAnonymousParent(fields []*StructFieldCode) map[string][]*StructFieldCode {
-	fieldMap := map[string][]*StructFieldCode{}
+func (c *Compiler) collectFieldMap(fields []*StructFieldCode, depth int, fieldMap map[string][]fieldAtDepth) {
 	for _, field := range fields {
 		if field.isAnonymous {
-			for k, v := range c.getAnonymousFieldMap(field) {
-				// Do not handle tagged key when embedding more than once
-				for _, vv := range v {
-					vv.isTaggedKey = false
+			structCode := field.getAnonymousStruct()
+			if structCode != nil && !structCode.isRecursive {
+				if depth > 0 {
+					// Do not handle tagged key when embedding more than once
+					for _, f := range structCode.fields {
+						if !f.isAnonymous {
+							f.isTaggedKey = false
+						}
+					}
 				}
-				fieldMap[k] = append(fieldMap[k], v...)
+				c.collectFieldMap(structCode.fields, depth+1, fieldMap)
+				continue
 			}
-			continue
 		}
-		fieldMap[field.key] = append(fieldMap[field.key], field)
+		fieldMap[field.key] = append(fieldMap[field.key], fieldAtDepth{field: field, depth: depth})
 	}
-	return fieldMap
 }
 
-func (c *Compiler) getDuplicatedFieldMap(fieldMap map[string][]*StructFieldCode) map[*StructFieldCode]struct{} {
+// getDuplicatedFieldMap returns the fields that are hidden: for each name the shallowest fields win;
+// several at that depth are all dropped unless exactly one of them is tagged ( as in encoding/json ).
+func (c *Compiler) getDuplicatedFieldMap(fieldMap map[string][]fieldAtDepth) map[*StructFieldCode]struct{} {
 	duplicatedFieldMap := map[*StructFieldCode]struct{}{}
-	for _, fields := range fieldMap {
+	for _, all := range fieldMap {
+		if len(all) == 1 {
+			continue
+		}
+		minDepth := all[0].depth
+		for _, f := range all {
+			if f.depth < minDepth {
+				minDepth = f.depth
+			}
+		}
+		fields := make([]*StructFieldCode, 0, len(all))
+		for _, f := range all {
+			if f.depth == minDepth {
+				fields = append(fields, f.field)
+			} else {
+				duplicatedFieldMap[f.field] = struct{}{}
+			}
+		}
 		if len(fields) == 1 {
 			continue
 		}
